@@ -268,10 +268,10 @@ static void answerHello(void *inFrame, lltd_iface_state *st, void *iface_ctx)
 __CPROVER_requires(PRE_frame(inFrame) && ST_SHAPE(st))
 __CPROVER_requires(PRE_answerHello(st, inFrame)) /*@C03.accepted-discover-state C05.accepted-discover-state*/
 __CPROVER_requires(iface_ctx == g_ctx) /*@C17.ctx-passed*/
-__CPROVER_assigns(g_led, st->mapper_seq, st->mapper_real, st->mapper_apparent, st->mapper_known, st->mapper_gen_topology, st->mapper_gen_quick)
+__CPROVER_assigns(g_led, g_hc, st->mapper_seq, st->mapper_real, st->mapper_apparent, st->mapper_known, st->mapper_gen_topology, st->mapper_gen_quick)
 __CPROVER_ensures(C03_HELLO_LEDGER(__CPROVER_old(g_led.tx_attempts), __CPROVER_old(g_led.tx_op[1]), __CPROVER_old(g_led.live), __CPROVER_old(g_led.allocs))) /*@C03.exactly-one-hello C19.hello-ledger C02.hello-single*/
 __CPROVER_ensures(C03_HELLO_STATE(st, inFrame, __CPROVER_old(st->mapper_real), __CPROVER_old(st->mapper_apparent), __CPROVER_old(st->mapper_gen_topology), __CPROVER_old(st->mapper_gen_quick))) /*@C03.hello-state C05.hello-state*/
-__CPROVER_ensures(st->mapper_seq == v_be16((const uint8_t *)inFrame + 30)) /*@C03.hello-seq*/
+__CPROVER_ensures(st->mapper_seq == (V_ALLOC_OK(__CPROVER_old(g_led.allocs), 0) ? v_be16((const uint8_t *)inFrame + 30) : __CPROVER_old(st->mapper_seq))) /*@C03.hello-seq*/
 ;
 
 
